@@ -41,10 +41,11 @@ type world struct {
 	// every frame seen on the raw connection, and every []Report the real published client
 	// (pkg/status Status.Connect) delivered: the delivered slice itself is kept, uncopied, next to a
 	// deep copy taken at the moment of delivery
-	frames    []frame
-	pmu       sync.Mutex
-	pub       []delivery
-	cancelPub context.CancelFunc
+	frames     []frame
+	pmu        sync.Mutex
+	pub        []delivery
+	cancelPub  context.CancelFunc
+	restBodies int // /status bodies handed to the model's encoder so far
 }
 
 type delivery struct {
@@ -358,8 +359,10 @@ func (w *world) await(prefix string, script []Ev, live []*liveClient, since time
 	// ---- GET /status: immediate (it reads the hub when asked); polled until it agrees or the deadline passes
 	var restObs []Ident
 	var restClause, restDetail string
+	var lastBody []byte
 	for {
 		listing, body, st := w.restListing()
+		lastBody = body
 		restObs = nil
 		if st != 200 {
 			restClause, restDetail = "status-endpoint-fails", fmt.Sprintf("GET /status answered %d %q", st, body)
@@ -386,6 +389,19 @@ func (w *world) await(prefix string, script []Ev, live []*liveClient, since time
 		time.Sleep(100 * time.Millisecond)
 	}
 	ri := w.addCase(Case{Kind: "hist", Evs: script, Obs: restObs, Source: "status-endpoint"})
+	if restClause == "" && lastBody != nil {
+		w.rmu.Lock()
+		take := w.restBodies < 6
+		if take {
+			w.restBodies++
+		}
+		w.rmu.Unlock()
+		if take {
+			if c, ok := restCase(lastBody, "history"); ok && len(c.Reports) <= 40 {
+				w.addCase(c)
+			}
+		}
+	}
 	if restClause != "" {
 		w.violate(lib.Violation{Clause: restClause, Case: ri, Detail: "GET /status, " + restDetail, Key: restClause + ":status-endpoint",
 			Replay: Case{Kind: "hist", Evs: script, Source: "status-endpoint"}})
